@@ -1,81 +1,68 @@
-/* C09 (+ C11 memory safety of the line buffer): the file loop of spifconf_parse.
+/* C09 (+ C11 memory safety of the line buffer): the file loop of spifconf_parse — bounded stand-in.
  *
  * Every COMPLETE line the environment delivers (fgets stub: arbitrary bytes, NUL bytes included, lines longer
  * than CONFIG_BUFF, missing final newline, end of file / read error at any point) is handed to
  * spifconf_parse_line exactly once and in order: parse_line's contract REQUIRES vg_deliverable == vg_pl_calls + 1
- * ("this call is for the newest complete line, read at a line boundary"), that precondition is checked at the
- * call site, and on return vg_pl_calls == vg_deliverable.  Over-long lines are skipped whole (loop 3 runs
- * mid-line throughout and ends at a line boundary).  Every stream opened is closed (ghost count back to its
- * entry value), fstate_idx is back to 0, the result is NULL or a fresh heap string.
+ * ("this call is for the newest complete line, read at a line boundary"); the model checks that precondition at
+ * every call, and on return vg_pl_calls == vg_deliverable.  Over-long lines are skipped whole.  Every stream
+ * opened is closed (ghost count back to its entry value; fclose on a NULL stream is an obligation), fstate_idx
+ * is back to 0, the result is NULL or a fresh heap string.
  *
- * Tier B — the loops are closed by loop contracts (no unwinding: any number of lines of any length), but the
- * facts about file-stack entries BELOW the top ("has a stream", "is not preprocessed") are needed at the top
- * after a pop, i.e. at a computed index; without quantifiers they are spelled out for the slots 1..2 and the
- * input is bounded accordingly:   include nesting <= 2 files, no %preproc directive
- * (the fopen stub refuses a third nested file; the projected parse_line contract states the bounds).
- * spifconf_parse_line is used through the FILE-STACK PROJECTION of its contract (contracts/conf.h,
- * VERIF_PL_PROJECT_FSTACK: the context-stack component is left out, spifconf_parse never touches it);
- * spifconf_open_file, spifconf_find_file and spifconf_register_fstate are used by contract. */
+ * Tier B.  With DFCC + loop contracts this function did not fit (41M SAT variables with the buffer already
+ * scaled down; the 20 kB local line buffer alone needs > 30 GB), and the facts about file-stack entries below
+ * the top are needed at a computed index after a pop.  This unit is a plain bounded harness:
+ *     at most 4 chunks are delivered in total (all files together), include nesting <= 2 files,
+ *     no %preproc directive, line buffer CONFIG_BUFF scaled to 32 bytes
+ * Callees are bound by the --replace-calls pre-pass to model functions with the text of their contracts
+ * (contracts/conf.h): spifconf_parse_line (file-stack projection of the contract proved in C09.parse_line),
+ * spifconf_open_file (contract proved in C11.open_file), spifconf_find_file.  spifconf_register_fstate runs
+ * as real code (the table never grows under the bound). */
 
 /*@unit
 name: parse
-define: VERIF_CONF_ANNOT_PARSE, VERIF_CONF_PUSH_MODELS, VERIF_OWN_STRCMP, VERIF_OWN_STRCHR, VERIF_CONF_REBIND, VERIF_LOOKUP_MODEL, VERIF_PL_PROJECT_FSTACK, VERIF_MAX_NEST=2
+define: VERIF_OWN_STRCMP, VERIF_OWN_STRCHR, VERIF_CONF_CALL_MODELS, VERIF_CONF_PARSE_MODELS, VERIF_STREAM_CHECKS_UNGUARDED, VERIF_MAX_NEST=2
 src: conf.c
-enforce: spifconf_parse
-replace: spifconf_parse_line, spifconf_open_file, spifconf_find_file
+prepass: --replace-calls spifconf_parse_line:v_m_parse_line --replace-calls spifconf_open_file:v_m_open_file --replace-calls spifconf_find_file:v_m_find_file
 backend: sat
 tier: B
-bound: include nesting <= 2 files, no %preproc directive; number and length of lines unbounded (loop contracts)
-loopcontracts: yes
-loops: 3
-timeout: 1500
-objbits: 9
+bound: <= 4 chunks delivered by fgets in total, include nesting <= 2 files, no %preproc directive, line buffer CONFIG_BUFF scaled to 32 bytes
+unwind: 7
+timeout: 600
+funcs: spifconf_parse, spifconf_register_fstate
 */
 #include "vprelude.h"
+#undef  CONFIG_BUFF
+#define CONFIG_BUFF 32
 #include "env_conf.h"
-#define VERIF_CONF_SPEC_ONLY
-#include "conf.h"
-#undef VERIF_CONF_SPEC_ONLY
 #include "src/conf.c"
-#define VERIF_CT_REGISTER
-#define VERIF_CT_CALLEES
-#define VERIF_CT_LOOKUP
-#define VERIF_CT_OPEN_FILE
-#define VERIF_CT_PARSE_LINE
 #include "conf.h"
-
-/* spifconf_find_file as spifconf_parse uses it (its memory safety: C11.find_file): NULL, or a C string in a
- * PATH_MAX buffer that the caller may write to (it is one of find_file's two static buffers; the single call
- * here sees it as a block of its own). */
-spif_charptr_t spifconf_find_file(const spif_charptr_t file, const spif_charptr_t dir, const spif_charptr_t pathlist)
-__CPROVER_requires(file != NULL && __CPROVER_r_ok(file, 1))
-__CPROVER_assigns()
-__CPROVER_ensures(__CPROVER_return_value == NULL ||
-                  (__CPROVER_is_fresh(__CPROVER_return_value, PATH_MAX) && __CPROVER_return_value[PATH_MAX - 1] == 0))
-;
-
-spif_charptr_t spifconf_parse(spif_charptr_t conf_name, const spif_charptr_t dir, const spif_charptr_t path)
-__CPROVER_requires(VCSTR_FRESH(conf_name, vg_m1))
-__CPROVER_requires(dir == NULL || VCSTR_FRESH(dir, vg_m2))
-__CPROVER_requires(path == NULL || VCSTR_FRESH(path, vg_m3))
-/* initialised subsystem, empty file stack (documented: "pushed onto the empty stack") */
-/* (capacity as after init: the bounded nesting never makes the table grow) */
-__CPROVER_requires(FSTK_INV && fstate_idx == 0 && fstate_cnt >= 4)
-/* ghosts: every complete line so far was delivered; at a line boundary; files are finite; parse_line's buffer is CONFIG_BUFF bytes */
-__CPROVER_requires(vg_pl_calls == vg_deliverable && !vg_fg_mid && !vg_fg_hdr && vg_fg_budget <= 0xffffffffUL && vg_n1 == CONFIG_BUFF)
-__CPROVER_assigns(spifconf_vars, fstate_idx, __CPROVER_object_whole(fstate))
-__CPROVER_assigns(vg_sp, vg_ct, vg_ev, vg_fg, vg_tf, vg_st)
-/* the file stack is back where it started, every stream opened was closed */
-__CPROVER_ensures(FSTK_POST && fstate_idx == 0 && vg_open_streams == __CPROVER_old(vg_open_streams))
-/* every complete line was delivered (exactly once and in order: see the header comment); nothing is delivered when no file was opened */
-__CPROVER_ensures(vg_pl_calls == vg_deliverable && !vg_fg_mid)
-__CPROVER_ensures(__CPROVER_return_value != NULL || vg_pl_calls == __CPROVER_old(vg_pl_calls))
-;
 
 void harness(void)
 {
-    spif_charptr_t conf_name, dir, path;
-    vg_n1 = CONFIG_BUFF;
-    spifconf_parse(conf_name, dir, path);
+    size_t n1 = nondet_size_t(), n2 = nondet_size_t(), n3 = nondet_size_t();
+    spif_charptr_t conf_name, dir = NULL, path = NULL, r;
+    unsigned long streams0, calls0;
+
+    /* arguments: C strings of arbitrary length */
+    __CPROVER_assume(n1 <= VCAP && n2 <= VCAP && n3 <= VCAP);
+    conf_name = (spif_charptr_t) malloc(n1 + 1); conf_name[n1] = 0;
+    if (nondet_bool()) { dir = (spif_charptr_t) malloc(n2 + 1); dir[n2] = 0; }
+    if (nondet_bool()) { path = (spif_charptr_t) malloc(n3 + 1); path[n3] = 0; }
+    /* initialised subsystem: empty file stack with the capacity init gives it */
+    fstate_cnt = 10; fstate_idx = 0;
+    fstate = (fstate_t *) malloc(sizeof(fstate_t) * 10);
+    /* ghosts: every complete line so far was delivered; at a line boundary; the environment still has <= 4 chunks */
+    vg_pl_calls = nondet_ulong(); vg_deliverable = vg_pl_calls; vg_fg_mid = 0; vg_fg_hdr = 0; vg_fg_ok = 0;
+    vg_fg_budget = nondet_ulong(); __CPROVER_assume(vg_fg_budget <= 4);
+    vg_open_streams = nondet_ulong();
+    streams0 = vg_open_streams; calls0 = vg_pl_calls;
+
+    r = spifconf_parse(conf_name, dir, path);
+
+    __CPROVER_assert(fstate_idx == 0, "spifconf_parse: file stack back where it started");
+    __CPROVER_assert(vg_open_streams == streams0, "spifconf_parse: every stream it opened was closed");
+    __CPROVER_assert(vg_pl_calls == vg_deliverable && !vg_fg_mid, "spifconf_parse: every complete line was delivered to parse_line");
+    __CPROVER_assert(r != NULL || vg_pl_calls == calls0, "spifconf_parse: NULL means nothing was parsed");
+    __CPROVER_assert(r == NULL || __CPROVER_r_ok(r, 1), "spifconf_parse: result is NULL or a string");
     VERIF_CANARY();
 }
